@@ -30,7 +30,7 @@ def run(ctx, replay):
         return
     thorough = ctx.tier == "thorough"
     # leg M: every tree shape x async x outcome x interleaving
-    ctx.model_check("MCPipeline", "MCPipeline.cfg", coverage=thorough)
+    ctx.model_check("MCPipeline", "MCPipeline.cfg" if thorough else "MCPipeline_quick.cfg", coverage=thorough, timeout=1800)
     # sensitivity: the pre-repair behaviour must violate the property in the model
     ctx.model_check("MCPipeline", "MCPipeline_dev.cfg", expect="violation")
     # leg T: real pipeline + real baseStage + real pool under a seeded gate scheduler
